@@ -664,6 +664,22 @@ def resub_scenario(r):
     return "\n".join(lines)
 
 
+def slow_iter_scenario(r):
+    """an iterator (or a blocking channeled subscriber) whose consumer is busy elsewhere while
+    several notifying actions arrive: the reducer waits in the forwarding send on the full
+    channel - where it is probed (also with long probes) - until the consumer drains"""
+    lines = ["cap %d" % r.choice([4, 16]), "pol block", "reducer 0 D", "init reducers 0", "init mws -"]
+    if r.random() < 0.5:
+        lines.append("sub 1 direct")
+    t0 = ["it:7"] + ["gs"] * r.randint(3, 7) + ["nx:7"] * r.randint(0, 2) + ["gs"] * r.randint(0, 3) + ["dr:7"]
+    t1 = []
+    for i in range(r.randint(3, 5)):
+        t1 += ["gs"] * r.randint(0, 1) + ["d.%s.%d" % (r.choice("ID"), 101 + i)]
+    t1 += ["gs"] * r.randint(2, 5) + [r.choice(["stop", "drop"])]
+    lines += ["t 0 " + " ".join(t0), "t 1 " + " ".join(t1)]
+    return "\n".join(lines)
+
+
 # --------------------------------------------------------------------------------------------------
 # properties decided through engine L (+ monitors)
 # --------------------------------------------------------------------------------------------------
@@ -695,6 +711,7 @@ FAMILIES = {
     # the registry changes between two notifications without changing its length (unsubscribe +
     # new iterator / subscriber)
     "resub": (dict(custom=resub_scenario), 10),
+    "slow_iter": (dict(custom=slow_iter_scenario), 20),
     "shutdown_unsub": (dict(policies=["block"], directs=(2, 3), chans=(0, 1), chan_pols=["block"], reducers=(1, 1),
                             keep=0.0, ops={"d": 3, "un": 8}, max_ops=3, mws=(0, 0), max_threads=3, stop=1.0), 60),
     "subs_order": (dict(policies=["block"], directs=(3, 4), reducers=(1, 1), keep=0.0,
@@ -740,7 +757,7 @@ PROPERTY_FAMILIES = {
     "C10": [("channeled", 220, 3000), ("resub", 40, 600)],
     "C11": [("effects", 220, 3000)],
     "C13": [("api_mix", 220, 3000), ("iterators", 40, 600)],
-    "C14": [("iterators", 160, 2000), ("resub", 80, 1200)],
+    "C14": [("iterators", 160, 2000), ("resub", 80, 1200), ("slow_iter", 60, 900)],
     "C15": [("droppable", 200, 3000)],
     "C18": [("metrics", 200, 3000)],
     "C16": [("selector_unsub", 300, 4000), ("selectors", 100, 1500)],
